@@ -147,6 +147,11 @@ def run(ctx):
     validate_formula_rule(ctx, "C05.R5")
 
     # ---------------------------------------------------------------- R6 tables
+    ctx.rule("C05.R8", "A3 reused buffer: every success path of the BAM record decoder overwrites or clears each column of the destination RecordBuf")
+    R.reused_buffer_rule(ctx, "C05.R8", "noodles_bam::record::codec::decoder::decode", "record_buf::RecordBuf::",
+                         ["reference_sequence_id_mut", "alignment_start_mut", "mapping_quality_mut", "flags_mut", "mate_reference_sequence_id_mut",
+                          "mate_alignment_start_mut", "template_length_mut", "name_mut", "cigar_mut", "sequence_mut", "quality_scores_mut", "data_mut"])
+
     ctx.rule("C05.R6", "A7 dec∘enc = id exhaustively for CIGAR kind / aux type / array subtype tables; sentinels agree")
     a7.table_agreement(ctx, "C05.R6", {"noodles_bam"}, 3)
     R.const_rule(ctx, "C05.R6", "UNMAPPED_BIN", {"b": B + "record::codec::encoder::bin::UNMAPPED_BIN"},
